@@ -23,3 +23,67 @@ package exported
 
 //@ contract interface Root.Empty
 //@   ensures result == (rootHash(self) == "")
+
+// ---- light client modules (interface). What a module answers is a ghost function of the module, the world it
+// is asked in and the client identifier; only these contracts establish the LC* predicates, so a caller proves
+// "success ==> checked by the light client with exactly these arguments" only by making the call.
+// A-lcm (assumption, stated as `confined`): a light client module changes state only under its own
+// clients/<clientID>/ prefix (it is handed a prefix store; proved per function where the module is under contract).
+
+//@ spec func lcStatus(m iface, w World, clientID string) string
+//@ spec func lcLatestHeight(m iface, w World, clientID string) Height
+//@ spec func lcTimestampAt(m iface, w World, clientID string, h iface) int
+//@ spec func lcTimestampErr(m iface, w World, clientID string, h iface) error
+//@ spec func lcMisbehaviour(m iface, w World, clientID string, msg iface) bool
+//@ spec func LCMsgVerified(m iface, w World, clientID string, msg iface) bool
+//@ spec func LCMembership(m iface, w World, clientID string, h iface, delayT int, delayB int, proof string, path iface, value string) bool
+//@ spec func LCNonMembership(m iface, w World, clientID string, h iface, delayT int, delayB int, proof string, path iface) bool
+//@ spec func LCUpgradeVerified(m iface, w World, clientID string, newClient string, newConsState string, proofClient string, proofCons string) bool
+//@ spec func LCRecovered(m iface, w World, subject string, substitute string) bool
+
+//@ contract interface LightClientModule.Initialize
+//@   modifies world(ctx)
+//@   ensures confined: onlyPrefixChanged(old(world(ctx)), world(ctx), "clients/" + clientID + "/")
+
+//@ contract interface LightClientModule.Status
+//@   ensures result == lcStatus(self, world(ctx), clientID)
+
+//@ contract interface LightClientModule.LatestHeight
+//@   ensures result == lcLatestHeight(self, world(ctx), clientID)
+
+//@ contract interface LightClientModule.TimestampAtHeight
+//@   ensures result0 == lcTimestampAt(self, world(ctx), clientID, height) && err == lcTimestampErr(self, world(ctx), clientID, height)
+
+//@ contract interface LightClientModule.VerifyClientMessage
+//@   ensures err == nil ==> LCMsgVerified(self, world(ctx), clientID, clientMsg)
+
+//@ contract interface LightClientModule.CheckForMisbehaviour
+//@   ensures result == lcMisbehaviour(self, world(ctx), clientID, clientMsg)
+
+//@ contract interface LightClientModule.UpdateStateOnMisbehaviour
+//@   modifies world(ctx)
+//@   ensures confined: onlyPrefixChanged(old(world(ctx)), world(ctx), "clients/" + clientID + "/")
+
+//@ contract interface LightClientModule.UpdateState
+//@   modifies world(ctx)
+//@   ensures confined: onlyPrefixChanged(old(world(ctx)), world(ctx), "clients/" + clientID + "/")
+
+//@ contract interface LightClientModule.VerifyMembership
+//@   modifies world(ctx)
+//@   ensures confined: onlyPrefixChanged(old(world(ctx)), world(ctx), "clients/" + clientID + "/")
+//@   ensures verified: err == nil ==> LCMembership(self, old(world(ctx)), clientID, height, delayTimePeriod, delayBlockPeriod, str(proof), path, str(value))
+
+//@ contract interface LightClientModule.VerifyNonMembership
+//@   modifies world(ctx)
+//@   ensures confined: onlyPrefixChanged(old(world(ctx)), world(ctx), "clients/" + clientID + "/")
+//@   ensures verified: err == nil ==> LCNonMembership(self, old(world(ctx)), clientID, height, delayTimePeriod, delayBlockPeriod, str(proof), path)
+
+//@ contract interface LightClientModule.RecoverClient
+//@   modifies world(ctx)
+//@   ensures confined: onlyPrefixChanged(old(world(ctx)), world(ctx), "clients/" + clientID + "/")
+//@   ensures recovered: err == nil ==> LCRecovered(self, old(world(ctx)), clientID, substituteClientID)
+
+//@ contract interface LightClientModule.VerifyUpgradeAndUpdateState
+//@   modifies world(ctx)
+//@   ensures confined: onlyPrefixChanged(old(world(ctx)), world(ctx), "clients/" + clientID + "/")
+//@   ensures verified: err == nil ==> LCUpgradeVerified(self, old(world(ctx)), clientID, str(newClient), str(newConsState), str(upgradeClientProof), str(upgradeConsensusStateProof))
